@@ -41,6 +41,7 @@ func ProfileFor(id, tier string) *Profile {
 	case "C01", "C06":
 		bump(map[string]int{"tie_reports": 25, "register_spec": 4, "create_reporter": 12, "submit_value": 40})
 		p.Witnesses = [2]int{1, 3}
+		p.LongFrac = 0.05
 	case "C02":
 		p.BigGaps = 0.04
 		bump(map[string]int{"gov_proposal": 3, "gov_vote": 12, "propose_dispute": 8, "vote": 10, "tie_vote": 8})
@@ -60,8 +61,9 @@ func ProfileFor(id, tier string) *Profile {
 		p.BigGaps = 0.06
 		p.Faults["aim_deadline"] = 0.3
 	case "C14":
-		bump(map[string]int{"deposit_report": 20, "claim_deposits": 12, "withdraw_tokens": 8, "create_reporter": 14})
+		bump(map[string]int{"deposit_report": 20, "claim_deposits": 12, "withdraw_tokens": 12, "create_reporter": 14, "op_reporter": 6})
 		p.BigGaps = 0.05
+		p.LongFrac = 0.35
 	case "C16", "C17":
 		bump(map[string]int{"request_attestations": 8, "delegate": 8, "undelegate": 8, "redelegate": 5, "create_validator": 3, "unjail_validator": 5})
 		p.Faults["byz_ext"] = 0.3
@@ -76,6 +78,7 @@ func ProfileFor(id, tier string) *Profile {
 	case "C19":
 		bump(map[string]int{"wrong_signer": 10, "privileged_direct": 6, "gov_proposal": 3, "gov_vote": 10, "update_team": 4, "register_spec": 4, "remove_selector": 5})
 		p.OneTxBlocks = 0.5
+		p.ForkProb = 0.5
 	}
 	if tier == "thorough" {
 		p.Blocks = [2]int{60, 600}
